@@ -374,9 +374,12 @@ class Emitter:
                     self._rec(pe, "exc")
                     raise _Abort(pe)
         elif k == "step":
-            self.stepno += 1
+            # ["step"]: a step with a fresh description; ["step", "again"]: set_step with the description of the step
+            # that is current in this thread (a polling loop) — a NEW step instance all the same
             self.inst += 1
-            self.step = "%s#%d" % (self.eid, self.stepno)
+            if not (len(a) > 1 and a[1] == "again"):
+                self.stepno += 1
+                self.step = "%s#%d" % (self.eid, self.stepno)
             lcc.set_step(self.step)
         elif k == "spawn":
             j = a[1]
@@ -448,6 +451,11 @@ def gen_abort(rng):
     return ["abort", rng.choice(_ABORT_HOWS), rng.random() < 0.75]
 
 
+def gen_step(rng):
+    """a step change; one in three sets the description of the current step AGAIN (`set_step("poll")` in a loop)"""
+    return ["step", "again"] if rng.random() < 0.33 else ["step"]
+
+
 def gen_script(rng, nthreads, size, heavy=False):
     acts = []
     spawned = []
@@ -470,6 +478,8 @@ def gen_script(rng, nthreads, size, heavy=False):
                 acts.append(gen_att(rng))
             elif k == "abort":
                 acts.append(gen_abort(rng))
+            elif k == "step":
+                acts.append(gen_step(rng))
             else:
                 acts.append([k])
     while len(spawned) < nthreads:
@@ -492,6 +502,8 @@ def gen_child(rng, size, heavy=False):
             out.append(gen_att(rng))
         elif k == "abort":
             out.append(gen_abort(rng))
+        elif k == "step":
+            out.append(gen_step(rng))
         else:
             out.append([k])
     return out
@@ -915,6 +927,16 @@ class RunStream(C.Stream):
         {"n": 4, "line": None, "sched": {"strategy": "random", "width": 2, "seed": 507504216},
          "suites": [{"name": "s0", "setup": None, "teardown": None, "tests": [
              {"name": "t5", "main": [["att", "file-reuse", {"after": "append", "via": "symlink-rel"}]], "threads": []}]}]},
+        # polling loops: the step that is current is set AGAIN (same description), records after each call; in the test
+        # thread (also right after the runner's own step), in an lcc.Thread (right after its default step), two tests
+        # at once
+        {"n": 2, "line": None, "sched": {"strategy": "rr", "width": 1, "seed": 7},
+         "suites": [{"name": "s0", "setup": None, "teardown": None, "tests": [
+             {"name": "t%d" % i,
+              "main": [["log", "info"], ["step", "again"], ["log", "info"], ["spawn", 0], ["step"], ["att", "content"], ["step", "again"],
+                       ["check", True], ["step", "again"], ["url"], ["join", 0]],
+              "threads": [[["log", "info"], ["step", "again"], ["log", "info"], ["step", "again"], ["att", "prepare"]]]}
+             for i in range(2)]}]},
     ]
 
     def __init__(self, ctx):
@@ -991,6 +1013,8 @@ class RunStream(C.Stream):
         for s_ in case["suites"]:
             for t in s_["tests"] + [h for h in (s_.get("setup"), s_.get("teardown")) if h]:
                 for a in t["main"] + [b for ch in t["threads"] for b in ch]:
+                    if a[0] == "step" and len(a) > 1:
+                        f.append("step:same-description-again")
                     if a[0] == "att" and a[1] not in ("content", "prepare"):
                         f.append("att:" + a[1])
                         if len(a) > 2:
@@ -1705,7 +1729,12 @@ class SessStream(_session.SessionStream):
     def oracle(self, case, obs):
         # C06, last sentence, on the observation only: a referenced attachment exists with the written content
         # (blocks left by an exception included: they must not be referenced at all)
-        return _session.attachment_failures("C06", obs)
+        out = _session.attachment_failures("C06", obs)
+        # ... and "inside the step that was current in the emitting thread", for every step change (also one to a
+        # step with the same description), on the streams of call sequences a run can issue
+        if obs["error"] is None and _session.protocol_following(case["ops"]):
+            out += _session.step_change_failures("C06", case["ops"], obs["fired"])
+        return out
 
 
 def streams(ctx):
